@@ -199,7 +199,7 @@ func checkNonce(c *core.Ctx, rule string, m *RunModel) {
 	}
 	for _, s := range sets {
 		a0, a1 := s.Arg(0), s.Arg(1)
-		okArgs := m.isTxSender(a0) && m.Tx != nil && core.Path(a1) == m.Tx.Name()+".Nonce"
+		okArgs := m.isTxSender(a0) && m.Tx != nil && core.Path(a1) == core.ParamName(m.Tx)+".Nonce"
 		if !okArgs {
 			c.Bad(rule, name+".Run/args", s.Pos(), fmt.Sprintf("SetNonce(%s, %s): expected (tx.Sender(), tx.Nonce)", core.Path(a0), core.Path(a1)))
 			return
